@@ -166,6 +166,7 @@ async fn scenario(h: usize, n: usize, evs: &[Ev]) -> Result<Outcome, Fault> {
     let mut triggered = false;
     let mut snaps: Vec<String> = Vec::new();
     let mut fault: Option<Fault> = None;
+    let mut timed_out: Option<String> = None;
 
     'events: for &ev in evs {
         match ev {
@@ -274,20 +275,31 @@ async fn scenario(h: usize, n: usize, evs: &[Ev]) -> Result<Outcome, Fault> {
             })
         };
         if triggered && released.iter().all(|r| *r) {
-            let deadline = tokio::time::Instant::now() + WAIT;
+            // a caller that already returned too early is a definite observation: nothing to wait for
+            let bad_return = |obs: &Vec<Arc<Mutex<CallerObs>>>| {
+                obs.iter().any(|o| matches!(o.lock().unwrap().returned, Some((d, closed, _)) if d != h || !closed))
+            };
+            let bound = if timed_out.is_some() { Duration::from_millis(200) } else { WAIT };
+            let deadline = tokio::time::Instant::now() + bound;
             loop {
                 if router.is_shutdown() && ep.is_closed() && !live_pending(&obs) {
                     break;
                 }
+                if bad_return(&obs) && !live_pending(&obs) {
+                    break;
+                }
                 if tokio::time::Instant::now() >= deadline {
-                    fault = Some(Fault::Timeout(format!(
-                        "after {}: is_shutdown={} is_closed={} callers pending={}",
-                        ev_tok(ev),
-                        router.is_shutdown(),
-                        ep.is_closed(),
-                        live_pending(&obs)
-                    )));
-                    break 'events;
+                    // keep going: later callers may turn this into a definite observation
+                    if timed_out.is_none() {
+                        timed_out = Some(format!(
+                            "after {}: is_shutdown={} is_closed={} callers pending={}",
+                            ev_tok(ev),
+                            router.is_shutdown(),
+                            ep.is_closed(),
+                            live_pending(&obs)
+                        ));
+                    }
+                    break;
                 }
                 tokio::time::sleep(Duration::from_millis(1)).await;
             }
@@ -334,6 +346,14 @@ async fn scenario(h: usize, n: usize, evs: &[Ev]) -> Result<Outcome, Fault> {
 
     if let Some(f) = fault {
         return Err(f);
+    }
+    if let Some(t) = timed_out {
+        // a bounded wait on the router expired; if nobody returned too early this is not a
+        // definite observation (the scenario is retried)
+        let early = callers.iter().any(|c| matches!(c.returned, Some((d, closed, _)) if d != h || !closed));
+        if !early {
+            return Err(Fault::Timeout(t));
+        }
     }
     let cs: Vec<String> = callers
         .iter()
